@@ -49,13 +49,13 @@ pub struct ReuseCase {
 
 pub struct ReuseFam;
 
-struct Forwarder {
-    addr: SocketAddr,
-    accepted: Arc<AtomicUsize>,
-    live: Arc<AtomicUsize>,
+pub struct Forwarder {
+    pub addr: SocketAddr,
+    pub accepted: Arc<AtomicUsize>,
+    pub live: Arc<AtomicUsize>,
 }
 
-async fn start_forwarder(upstream: SocketAddr) -> Result<Forwarder, Fail> {
+pub async fn start_forwarder(upstream: SocketAddr) -> Result<Forwarder, Fail> {
     let l = TcpListener::bind(SocketAddr::new(IpAddr::V4(worker_ip()), 0)).await.map_err(|e| infra(format!("forwarder bind: {e}")))?;
     let addr = l.local_addr().map_err(|e| infra(e.to_string()))?;
     let accepted = Arc::new(AtomicUsize::new(0));
@@ -109,7 +109,7 @@ async fn start_forwarder(upstream: SocketAddr) -> Result<Forwarder, Fail> {
     Ok(Forwarder { addr, accepted, live })
 }
 
-async fn one_request(socks: SocketAddr, target: SocketAddr, tag: usize) -> Result<(), Fail> {
+pub async fn one_request(socks: SocketAddr, target: SocketAddr, tag: usize) -> Result<(), Fail> {
     let mut s = match socks5_connect(socks, &Dest::of(target)).await {
         Ok(s) => s,
         Err(e) => return Err(Fail::plain("C13.serve", format!("request #{tag} through the front-end failed (reply {:?})", e))),
@@ -132,7 +132,7 @@ impl Family for ReuseFam {
         "reuse"
     }
     fn strategy(&self, _tier: Tier) -> BoxedStrategy<ReuseCase> {
-        let step = prop_oneof![4 => Just(Step::Seq), 1 => (2u8..6).prop_map(Step::Burst)];
+        let step = prop_oneof![4 => Just(Step::Seq), 1 => (2u8..6).prop_map(Step::Burst), 1 => (8u8..20).prop_map(Step::Burst)];
         let step_t = prop_oneof![4 => Just(Step::Seq), 1 => (2u8..4).prop_map(Step::Burst), 2 => prop_oneof![Just(5u8), Just(25), Just(35)].prop_map(Step::Pause)];
         prop_oneof![
             2 => (0usize..=3, proptest::collection::vec(step, 2..14)).prop_map(|(min_idle, steps)| ReuseCase { min_idle, steps, short_timers: false }),
@@ -244,6 +244,19 @@ impl Family for ReuseFam {
                             if pooled < 0 {
                                 pooled = 0;
                             }
+                        }
+                    }
+                    // the pool's own count against the model (exact while no timer has fired): a session
+                    // that was dialled and not yet taken out must be in the idle map - one that is missing
+                    // is alive but unreachable: never reused, never reaped
+                    if !case.short_timers {
+                        let idle = client.verif_session_pool().idle_count().await as i64;
+                        if idle != pooled {
+                            return Err(Fail::new(
+                                "C12.count",
+                                "C13.pool-model:idle-count",
+                                format!("after step {si} ({n} requests, {} connections dialled) the pool holds {idle} idle sessions, {pooled} sessions were dialled and never taken out", fwd.accepted.load(Ordering::SeqCst)),
+                            ));
                         }
                     }
                     let live = fwd.live.load(Ordering::SeqCst);
